@@ -424,6 +424,7 @@ def execute(history):
     models = {}
     viols = []
     cnt = {}
+    obs = []
 
     def bump(k, v=1):
         cnt[k] = cnt.get(k, 0) + v
@@ -473,6 +474,7 @@ def execute(history):
                       st["last_linkage"] = list(st["obj"].linkage)
                   snap = core.digest_value({"res": {int(k): sorted(int(x) for x in v) for k, v in res.items()} if isinstance(res, dict) else res,
                                             "linkage": [[float(x) for x in row] for row in st["obj"].linkage] if spec["kind"] != "hier" else None})
+                  obs.append([opi, snap, mon.merges])
                   if kind == "refit_twice" and not stateful:
                       # the same model, the same data, stateless hooks: a second fit must reproduce the first, and a fresh model too
                       mon2, res2 = _fit_once(st, dat, setup, bump)
@@ -515,7 +517,7 @@ def execute(history):
             bump("raised:%s:%s" % (kind, type(exc).__name__))
             add({"class": "exception", "detail": "%s raised %s: %s" % (kind, type(exc).__name__, str(exc)[:200])}, opi)
     return {"violations": viols[:4], "counters": cnt, "nontrivial": sessions.sessions_interleaved(history),
-            "digest": core.hash_obj([[v["class"], v["op"]] for v in viols])}
+            "digest": core.hash_obj([obs, [[v["class"], v["op"]] for v in viols]])}
 
 
 def signature(history, viol):
